@@ -11,7 +11,7 @@ from ..analyses import (delta_analysis, is_fail, is_success, is_call, loops, inn
 from ..core import must_pass as core_must_pass
 
 COUNTERS = [('iv_state', 'numobjs'), ('iv_state', 'numfds'), ('iv_state', 'event_count'),
-            ('iv_wait_thr_info', 'wait_count'), ('global', 'total_num_interests')]
+            ('iv_wait_thr_info', 'wait_count')]
 
 # Object kinds whose registration changes the counters iv_main's exit test
 # reads.  reg/unreg are API entry points; `tokens` maps helper functions to a
@@ -94,9 +94,17 @@ def run(ctx):
                        'before polling; no other loop exit', floor=5)
     ctx.rule('R-C07d', 'failed iv_fd_register_try clears `registered` and calls the method unregister hook', floor=2)
 
-    names = [c[1] for c in COUNTERS]
     covered = set()
-    # ---- R-C07b ------------------------------------------------------------
+    ctx.section(balance, covered)
+    ctx.section(auto_unregister, covered)
+    ctx.section(writers, covered)
+    ctx.section(check_main, prog)
+    ctx.section(try_rollback)
+
+
+def balance(ctx, covered):
+    prog = ctx.prog
+    names = [c[1] for c in COUNTERS]
     for K in KINDS:
         if K.get('optional') and not all(prog.has_fn(x) for x in K['reg'] + K['unreg']):
             continue
@@ -181,7 +189,11 @@ def run(ctx):
                detail='rx_on success deltas %s ; rx_off deltas %s' % (sorted(_fmt(d, names) for d in succ), sorted(_fmt(d, names) for d in un)),
                fn=foff.q)
 
-    # ---- R-C07b.auto ---------------------------------------------------------
+
+
+def auto_unregister(ctx, covered):
+    prog = ctx.prog
+    names = [c[1] for c in COUNTERS]
     # task runner: between the unlink of a task and its handler, numobjs drops by exactly one
     f = prog.fn('iv_run_tasks')
     lps = loops(f)
@@ -199,7 +211,7 @@ def run(ctx):
         for e in f.events():
             if e['ev'] == 'store' and counter_key(e) in COUNTERS:
                 covered.add(e['loc'])
-        ctx.ob('R-C07b.auto', 'iv_run_tasks:per-task', ds == {(-1, 0, 0, 0, 0)}, loc=cs['loc'],
+        ctx.ob('R-C07b.auto', 'iv_run_tasks:per-task', ds == {(-1, 0, 0, 0)}, loc=cs['loc'],
                detail='net change from loop head to the handler call: %s' % sorted(_fmt(d, names) for d in ds), fn=f.q)
     # timer runner: every timer moved to the expired batch went through iv_timer_unregister (heap arm)
     f = prog.fn('iv_run_timers')
@@ -219,7 +231,10 @@ def run(ctx):
         ctx.ob('R-C07b.auto', 'iv_run_timers:expire', bool(mp.get((a['_b'], a['_i']))), loc=a['loc'],
                detail='iv_timer_unregister(%s) precedes the move to the expired batch in the same iteration' % obj, fn=f.q)
 
-    # ---- R-C07a -------------------------------------------------------------
+
+
+def writers(ctx, covered):
+    prog = ctx.prog
     for c in COUNTERS[:3] + [('iv_state', 'quit')]:
         ws = prog.writers_of(*c)
         for (f, e) in ws:
@@ -240,10 +255,10 @@ def run(ctx):
                     det = 'store is not on any path analysed by the balance rule (unbalanced writer)'
             ctx.ob('R-C07a', '%s:%s.%s %s' % (f.name, c[0], c[1], op), ok, loc=e['loc'], detail=det, fn=f.q)
 
-    # ---- R-C07c ---------------------------------------------------------------
-    check_main(ctx, prog)
 
-    # ---- R-C07d ---------------------------------------------------------------
+
+def try_rollback(ctx):
+    prog = ctx.prog
     f = prog.fn('iv_fd_register_try')
     g = Inliner(prog, expand_methods=False).inline(f)
     res = delta_analysis(g, COUNTERS)
